@@ -161,8 +161,26 @@ impl Property for C02 {
         cmpb!(k, try_bool!(obs, k, ctx, with_concrete_only!(&ga, [Point, Line, LineString, Polygon, MultiLineString, Rect, Triangle, GeometryCollection], a => a.contains(&gb), else m.contains())), m.contains());
         let k = format!("contains:Geometry[{ta}]/{tb}");
         cmpb!(k, try_bool!(obs, k, ctx, with_concrete!(&gb, b => ga.contains(b))), m.contains());
+        let k = format!("intersects:Geometry[{ta}]/{tb}");
+        cmpb!(k, try_bool!(obs, k, ctx, with_concrete!(&gb, b => ga.intersects(b))), m.intersects());
+        let k = format!("within:{ta}/Geometry[{tb}]");
+        cmpb!(k, try_bool!(obs, k, ctx, with_concrete!(&ga, a => a.is_within(&gb))), m.within());
+        let k = format!("within:Geometry[{tb}]/{ta}");
+        cmpb!(k, try_bool!(obs, k, ctx, with_concrete_only!(&ga, [Point, Line, LineString, Polygon, MultiLineString, Rect, Triangle, GeometryCollection], a => gb.is_within(a), else mt.within())), mt.within());
         // Coord forms
         if let Some(co) = as_coord(&gb) {
+            let k = format!("intersects:Coord/Geometry[{ta}]");
+            cmpb!(k, try_bool!(obs, k, ctx, co.intersects(&ga)), m.intersects());
+            let k = format!("within:Coord/{ta}");
+            cmpb!(k, try_bool!(obs, k, ctx, with_concrete_only!(&ga, [Point, Line, LineString, Polygon, MultiPoint, MultiPolygon, Rect, Triangle, GeometryCollection], a => co.is_within(a), else mt.within())), mt.within());
+            if let Some(co2) = as_coord(&ga) {
+                let k = "intersects:Coord/Coord".to_string();
+                cmpb!(k, try_bool!(obs, k, ctx, co2.intersects(&co)), m.intersects());
+                let k = "coordpos:Coord".to_string();
+                cmpb!(k, try_bool!(obs, k, ctx, co2.coordinate_position(&co) == CoordPos::Inside), m.intersects());
+                let k = "coordpos:Coord|never-boundary".to_string();
+                cmpb!(k, try_bool!(obs, k, ctx, co2.coordinate_position(&co) != CoordPos::OnBoundary), true);
+            }
             let k = format!("intersects:{ta}/Coord");
             cmpb!(k, try_bool!(obs, k, ctx, with_concrete!(&ga, a => a.intersects(&co))), m.intersects());
             let k = format!("intersects:Coord/{ta}");
